@@ -13,8 +13,8 @@ A difference from the implementation-shaped prediction that keeps the property i
 """
 import json
 
-FAMILIES = {"bsc": ["bsc", "bytom"], "heco": ["heco", "hsc"], "pixie": ["pixie"]}
-UNCOVERED = ["msc (clique votes: different rule set, no adapter)", "polygon bor (spans/sprints + heimdall: no adapter)"]
+FAMILIES = {"bsc": ["bsc", "bytom"], "heco": ["heco", "hsc"], "pixie": ["pixie"], "clique": ["msc"], "bor": ["bor"]}
+UNCOVERED = ["polygon bor: sprint boundaries (span validation against heimdall, proposer rotation) are outside the modelled domain", "msc: headers that cast clique votes (signer set changes by voting) are outside the modelled domain"]
 
 
 def _replay(ctx, b, router, cfgname, items, stats, what):
@@ -53,7 +53,7 @@ def run(ctx):
     stats = {"evaluations": 0, "nontrivial": 0, "stored": 0, "predicted": 0, "drift": 0, "panics": 0, "panic_keys": set(), "drift_samples": []}
     if ctx.replay:
         rp = json.load(open(ctx.replay))["replay"]
-        items = [{"h": rp["hist"], "e": rp["step"]}]
+        items = [{"h": [st["x"] for st in (rp["hist"] or [])], "e": rp["step"]}]
         _replay(ctx, b, rp["router"], rp["cfg"], items, stats, "replay")
         ctx.cov["evaluations"] = stats["evaluations"]
         ctx.cov["distinct_nontrivial"] = max(stats["nontrivial"], 2)
@@ -61,6 +61,14 @@ def run(ctx):
         return ctx.finish(rule="single replayed edge")
     plan = []      # (family, generation cfg, chain cfg)
     for fam in FAMILIES:
+        if fam == "clique":
+            plan.append((fam, "C3" if q else "C4", "C"))
+            if not q:
+                plan.append((fam, "D3", "D"))
+            continue
+        if fam == "bor":
+            plan.append((fam, "P3" if q else "P4", "P"))
+            continue
         plan.append((fam, "A3" if q else "A4", "A"))
         if not q or fam == "bsc":
             plan.append((fam, "F4" if q else "F5", "F"))
@@ -76,8 +84,8 @@ def run(ctx):
             if s["edges"] + s["abandoned"] + s["skipped_no_rule"] != len(edges) and not ctx.violations:
                 ctx.fail("driver replayed %d of %d edges (%s)" % (s["edges"], len(edges), router))
     # long behaviours
-    nb = 12 if q else 150
-    sims = [("bsc", "B"), ("heco", "B")] if q else [(f, c) for f in FAMILIES for c in ("A", "B")]
+    nb = 12 if q else 60
+    sims = [("bsc", "B"), ("heco", "B")] if q else [("bsc", "A"), ("bsc", "B"), ("heco", "B"), ("pixie", "A"), ("clique", "D"), ("bor", "P")]
     for fam, c in sims:
         r = ctx.tlc("MCPoSA", "PoSA_%s_%s_sim.cfg" % (fam, c), workers=1, simulate="num=1", depth=nb * 17 + 1, timeout=2400)
         if r.rc != 0:
@@ -89,14 +97,15 @@ def run(ctx):
             _replay(ctx, b, router, c, traces, stats, "behaviours %s" % c)
             ctx.cov["traces_validated_against_impl"] += len(traces)
     if not q:
-        for fam in FAMILIES:
+        for fam in ("bsc", "heco", "pixie"):
             ctx.mc("MCPoSA", "PoSA_%s_A5_mc.cfg" % fam, timeout=2400)
             ctx.mc("MCPoSA", "PoSA_%s_B4_mc.cfg" % fam, timeout=2400)
     ctx.cov["evaluations"] = stats["evaluations"]
     ctx.cov["distinct_nontrivial"] = stats["nontrivial"]
     extra = {"drift": stats["drift"], "drift_samples": stats["drift_samples"], "panics_observed": sorted(stats["panic_keys"]),
              "routers_covered": sorted(sum(FAMILIES.values(), [])), "routers_uncovered": UNCOVERED,
-             "clauses_without_rule_in_code": {"bsc,bytom": ["header time vs parent time"], "hsc": ["gas limit within 1/256 of the parent"]}}
+             "clauses_without_rule_in_code": {"bsc,bytom": ["header time vs parent time"], "hsc": ["gas limit within 1/256 of the parent"],
+                                              "msc": ["gas limit / gas used"]}}
     if stats["drift"]:
         ctx.note("DRIFT: %d replayed steps differ from the implementation-shaped prediction while C29 holds" % stats["drift"])
         if stats["drift"] * 2 > max(1, stats["predicted"]) and not ctx.violations:
